@@ -258,7 +258,10 @@ type cell struct {
 // ("A") from the inventory log of an honest run that contained a parallel
 // session "B". only restricts to message types whose stripped cid has one of
 // the given prefixes (the protocol under test, not its session setup).
-func enumerateCells(log []wireMsg, c sim.ID, ns string, only []string, maxLeavesPerMsg int) []cell {
+func enumerateCells(log []wireMsg, c sim.ID, ns string, only []string, maxLeavesPerMsg int, light bool) []cell {
+	// light: for scenarios whose single run costs tens of seconds, the operators that
+	// add little over their neighbours are left out (high-bit flip, byte-string
+	// truncate/extend, the last-instance copy of replace-by-another-value)
 	find := func(from sim.ID, cid string, to sim.ID) *wireMsg {
 		for i := range log {
 			w := &log[i]
@@ -375,7 +378,7 @@ func enumerateCells(log []wireMsg, c sim.ID, ns string, only []string, maxLeaves
 					continue
 				}
 				add(tamper{CID: w.CID, To: to, Path: l.Path, Op: "flip", Arg: "0"}, "flip-low"+inst)
-				if (n.Major == 2 || n.Major == 3) && len(n.Bytes) > 1 {
+				if (n.Major == 2 || n.Major == 3) && len(n.Bytes) > 1 && !light {
 					add(tamper{CID: w.CID, To: to, Path: l.Path, Op: "flip", Arg: strconv.Itoa(len(n.Bytes)*8 - 1)}, "flip-high"+inst)
 					if n.Bytes[len(n.Bytes)-1] != 0 {
 						// dropping a trailing zero byte may decode (zero-padded) to the very same value: not an alteration
@@ -389,7 +392,7 @@ func enumerateCells(log []wireMsg, c sim.ID, ns string, only []string, maxLeaves
 				// replace by another valid value of the same position
 				for si, t := range []*cbor.Node{otherTree, parTree} {
 					src := []string{"other-sender", "parallel-session"}[si]
-					if t == nil {
+					if t == nil || (light && pi > 0) {
 						continue
 					}
 					if o, ok := t.Find(l.Path); ok && o.Node.IsLeaf() && o.Node.Major == n.Major {
